@@ -70,6 +70,17 @@ REQUIRED_THOROUGH = ["subr:bias32768", "enc:32767"]
 # geometry helpers on top of vf.geom
 
 
+def _q16(prog):
+    """operands rounded to the nearest multiple of 1/65536 (integers stay integers)"""
+    out = []
+    for t in prog:
+        if isinstance(t, float):
+            r = round(t * 65536) / 65536.0
+            t = int(r) if r == int(r) else r
+        out.append(t)
+    return out
+
+
 def _same_program_16_16(a, b):
     """Token sequences equal; a number of the source that is not a multiple of 1/65536 comes back as the nearest one
     (Type 2 operands are integers or 16.16 fixed numbers): at most half a unit (2**-17) away."""
@@ -749,8 +760,11 @@ def check_font_case(acc, case, do_program_legs=True):
     for i, name in enumerate(names):
         flat, sub = case["flat"][i], case["sub"][i]
         gcase = dict(case, only=i)
-        ra = ref_t2.run(flat, None, None, "cff", dwx, nwx)
-        rb = ref_t2.run(sub, lsub, gsub, "cff", dwx, nwx)
+        # the font's program is what the encoder can write: every operand an integer or a 16.16 number. Generated operands
+        # that are not (n + 1e-9, n + 2**-20 ...) stand for the value they round to; a reference run on the raw floats would keep
+        # segments of length 1e-6 that do not exist in any encoded form of the glyph
+        ra = ref_t2.run(_q16(flat), None, None, "cff", dwx, nwx)
+        rb = ref_t2.run(_q16(sub), [_q16(x) for x in lsub], [_q16(x) for x in gsub], "cff", dwx, nwx)
         if ra.problems or rb.problems or ra.ops != rb.ops or ra.width != rb.width or rb.max_depth > 48:
             raise HarnessError("generator: outlined program is not equivalent/well-formed: %r %r %s" % (ra.problems[:2], rb.problems[:2], short(sub, 300)))
         refs.append(ra)
